@@ -637,4 +637,30 @@ example :
     stepJudge escape 3 false 8 false [0x61, 0x62, 0x20] ⟨[0x61], 1, .shortDst⟩ = none := by
   decide +kernel
 
+/-! ### The code tables at other offsets (round E, review C16-3)
+
+`escapeTable` / `unescapeTable` are probed on strings whose only item sits at offset 0.  The
+model treats an item the same wherever it stands; the facts `escapeOffsets` / `unescapeOffsets`
+say the real code does so behind six kinds of prefix (ordinary bytes, a previous escape, an
+incomplete escape), for all 256 bytes / all 65536 pairs. -/
+
+/-- escaping is byte-wise: it distributes over concatenation -/
+theorem C16_escape_append (p s : Bytes) : escape (p ++ s) = escape p ++ escape s := by
+  simp [escape, List.flatMap_append]
+
+/-- unescaping `\ab` behind each of the probed prefixes is unescaping the prefix, then `\ab` -/
+theorem C16_unescape_after_prefix (a b : UInt8) :
+    ∀ p ∈ ([[0x78], [0x78, 0x78], [bslash, 0x32, 0x30], [bslash], [bslash, 0x32], [0x61, bslash, 0x33, 0x61]] : List Bytes),
+      unescape (p ++ [bslash, a, b]) = unescape p ++ unescape [bslash, a, b] := by
+  intro p hp
+  simp only [List.mem_cons, List.not_mem_nil, or_false] at hp
+  rcases hp with rfl | rfl | rfl | rfl | rfl | rfl <;>
+    simp [unescape, bslash, shouldUnescape, unhex2, unhex]
+
+/-- regenerated facts (probes): the real `Escape` / `Unescape` agree with that on every byte /
+every pair behind every probed prefix -/
+theorem C16_gen_offset_tables :
+    Generated.C16.escapeOffsets = some [0, 0, 0, 0] ∧
+    Generated.C16.unescapeOffsets = some [0, 0, 0, 0, 0, 0] := by decide
+
 end XmppModel.Props.C16
